@@ -84,6 +84,9 @@ def _gen_spec(rw, kind):
                 spec["fmin"] = spec["fmax"] / 50.0
             if kind == "alpha":
                 spec["alpha"] = rw.choice([0.01, 0.5, 1.0, 1.5, 2.0, round(rw.uniform(0.01, 2.0), 3)])
+            if rw.random() < 0.12:
+                # narrow band: a cascade of one, two or three sections (the section count follows log10(fmax/fmin))
+                spec["fmin"] = spec["fmax"] / rw.choice([1.2, 1.5, 1.66, 1.7, 2.5, 4.0])
     return spec
 
 
@@ -185,6 +188,15 @@ def generate(seed, tier):
         if cand:
             ops.append(["fork_samples", rw.choice(cand), rw.choice([1, 5, 300])])
     sc = {"gens": gens, "ops": ops, "initially_alive": [not c for c in created_late]}
+    if rw.random() < 0.12:
+        # independent generators consumed by concurrent caller threads (simulated: one runs at a time, pre-empted at
+        # source lines of speckit/noise.py in a seeded order); each stream must be what it is when consumed alone
+        k = min(ngen, rw.choice([2, 2, 3]))
+        sc["concurrent"] = {
+            "gens": rw.sample(range(ngen), k),
+            "reqs": [[[rw.choice(["series", "series", "samples"]), rw.choice([0, 1, 2, 7, 33, 120, 300])] for _ in range(rw.randrange(1, 4))] for _ in range(k)],
+            "sched": rw.randrange(2 ** 31),
+        }
     # same seed in a *fresh interpreter* (other hash salt): rarely in quick (a subprocess costs ~2 s), often in thorough
     cousins = [g for g, sp in enumerate(gens) if "cousin_of" in sp]
     if cousins and rw.random() < (0.3 if tier == "thorough" else 0.15):
@@ -424,6 +436,8 @@ def execute(sc, out):
         _cross_process_check(sc, sc["xproc"], out)
     # kernel-level direct-form check of the cascade helper, compiled and interpreted
     _cascade_kernel_check(sc, out)
+    if sc.get("concurrent"):
+        _concurrent_consumers_check(sc, out)
     out.summary = {"gens": [(g["kind"], g.get("twin_of")) for g in gens], "nops": len(sc["ops"])}
 
 
@@ -517,6 +531,85 @@ def _cross_process_check(sc, g, out):
     out.observe(here)
 
 
+def _is_noise_source(code):
+    return code.co_filename.endswith("/speckit/noise.py")
+
+
+def _consume(inst, reqs):
+    res = []
+    for kind, n in reqs:
+        if kind == "series":
+            res.append(np.array(inst.get_series(n), dtype=np.float64, copy=True))
+        else:
+            res.append(np.array([inst.get_sample() for _ in range(min(n, 40))], dtype=np.float64))
+    return np.concatenate(res) if res else np.zeros(0)
+
+
+def _concurrent_consumers_check(sc, out):
+    """Independent generator instances, one per simulated caller thread.  The colouring kernel runs interpreted here so
+    that the scheduler can pre-empt inside it (a compiled kernel that released the GIL would be pre-empted by the OS at
+    the same places); instances are built first, with the compiled kernel, so settling stays cheap."""
+    from speckit import noise
+    from dsim import sched
+
+    cc = sc["concurrent"]
+    gens = sc["gens"]
+    specs = [gens[g] for g in cc["gens"] if g < len(gens)]
+    if len(specs) < 2:
+        return
+    try:
+        alone = [_build(sp) for sp in specs]
+        together = [_build(sp) for sp in specs]
+    except Exception:
+        return          # constructor failures are reported by the main history
+    fn = getattr(noise, "_numba_lfilter_cascade", None)
+    py = getattr(fn, "py_func", None)
+    if py is not None:
+        noise._numba_lfilter_cascade = py
+    try:
+        try:
+            ref = [_consume(alone[i], cc["reqs"][i]) for i in range(len(specs))]
+        except Exception as e:
+            out.violate("exception", "consumer_alone", f"{type(e).__name__}: {str(e)[:160]}")
+            return
+        res = [None] * len(specs)
+        errs = [None] * len(specs)
+
+        def task(i):
+            def run():
+                try:
+                    res[i] = _consume(together[i], cc["reqs"][i])
+                except Exception as e:  # noqa: BLE001
+                    if type(e).__name__ in ("HarnessError", "SimDeadlock"):
+                        raise
+                    errs[i] = e
+            return run
+
+        stats = sched.Stats()
+        baton = sched.Baton(R.stream(cc["sched"], "sched"), _is_noise_source, stats, None)
+        baton.run([task(i) for i in range(len(specs))])
+    finally:
+        if py is not None:
+            noise._numba_lfilter_cascade = fn
+    out.sim_steps += stats.steps
+    out.sim_handovers += stats.handovers
+    for k, v in stats.policies.items():
+        out.count("policy_" + k, v)
+    out.count("concurrent_consumers")
+    if stats.handovers > len(specs):
+        out.count("concurrent_consumers_interleaved")
+    if stats.ndecisions:
+        out.extra.setdefault("schedule_digests", []).append(stats.decisions.hexdigest()[:12])
+    out.observe("sched", stats.decisions.hexdigest()[:16], stats.steps)
+    for i, sp in enumerate(specs):
+        if errs[i] is not None:
+            out.violate("exception", "concurrent_consumers", f"{sp['kind']} consumed next to {[q['kind'] for q in specs]} raised {type(errs[i]).__name__}: {str(errs[i])[:160]}")
+        elif not _bits_equal(res[i], ref[i]):
+            out.violate("concurrent_consumers_differ", sp["kind"], f"stream of an independent {sp['kind']} generator changes when other generators ({[q['kind'] for q in specs]}) are consumed by concurrent threads: {_first_diff(ref[i], res[i])}")
+        else:
+            out.observe(res[i])
+
+
 def _cascade_kernel_check(sc, out):
     from speckit import noise
     from scipy.signal import lfilter
@@ -524,6 +617,17 @@ def _cascade_kernel_check(sc, out):
     fn = getattr(noise, "_numba_lfilter_cascade", None)
     if fn is None:
         out.count("cascade_helper_absent")
+        return
+    # the helper is private: if a maintainer changed its calling convention this direct oracle does not apply (the
+    # generator-level comparison with the direct-form cascade, R4b, still does)
+    try:
+        import inspect
+
+        params = list(inspect.signature(getattr(fn, "py_func", fn)).parameters)
+    except (TypeError, ValueError):
+        params = None
+    if params is not None and len(params) != 4:
+        out.count("cascade_helper_signature_changed")
         return
     rk = R.stream(sc.get("seed", 0), "cascade")
     nprng = np.random.default_rng(R.np_seed(sc.get("seed", 0), "cascade"))
